@@ -71,6 +71,10 @@ func YamlDecode(d *yaml.Decoder, v any) error {
 
 //verif:replace github.com/Masterminds/semver/v3.NewVersion
 func SemverNewVersion(s string) (*semver.Version, error) {
+	// a harness may pin the one string that parses (anything else is not a semantic version)
+	if want, ok := zz.Load("semver.expect").(string); ok && s != want {
+		return nil, fmt.Errorf("invalid semantic version")
+	}
 	switch r := zz.Load("semver.next").(type) {
 	case *semver.Version:
 		return r, nil
